@@ -50,9 +50,11 @@ class MThread:
             self.exc = e
             self.sched.events.append(('thread-crash', self.name, repr(e)))
         finally:
+            was_blocked = self in self.sched.blocked
             self.state = 'dead'
-            self.sched.current = None
-            self.sched.ctl.release()
+            if not was_blocked:             # a thread set aside as blocked is no longer part of the hand-over protocol
+                self.sched.current = None
+                self.sched.ctl.release()
 
     def enabled(self):
         if self.state not in ('new', 'parked'):
@@ -73,8 +75,9 @@ class Sched:
         # saves the hand-over; a run is reproduced by (scenario, fine_seed, controller choices)
         self.fine_seed = fine_seed
         self.fine_p = fine_p
-        self.step_timeout = 10.0
+        self.step_timeout = 4.0
         self.stuck = False
+        self.blocked = []
         self.threads = []
         self.by_real = {}
         self.current = None
@@ -146,11 +149,13 @@ class Sched:
         self.current = t
         t.sem.release()
         if not self.ctl.acquire(timeout=self.step_timeout):
-            # the thread neither reached its next yield point nor ended: it is blocked in a REAL primitive (a lock the
-            # scheduler does not control, held by a parked thread).  The run cannot be continued deterministically.
-            self.stuck = True
-            self.halted = True
-            self.events.append(('scheduler-stuck', t.name, kind))
+            # the thread neither reached its next yield point nor ended: it is blocked in a REAL primitive the scheduler
+            # does not control (a lock / semaphore / condition of the threading module).  It is set aside; the others go
+            # on; if it is still blocked when nothing else can run, the run ends in status 'deadlock'.
+            t.state = 'blocked'
+            self.current = None
+            self.blocked.append(t)
+            self.events.append(('blocked-in-real-primitive', t.name, kind))
         return rec
 
     def run(self, chooser, max_steps=20000, eager=()):
@@ -165,6 +170,12 @@ class Sched:
                 return 'exited'
             en = self.enabled_threads()
             if not en:
+                if self.blocked:
+                    import time
+                    time.sleep(0.3)
+                    if any(t.real.is_alive() and t.state == 'blocked' for t in self.blocked):
+                        self.stuck = True
+                        return 'deadlock'
                 return 'quiescent'
             pick = None
             for t in en:
@@ -223,6 +234,24 @@ class RandomChooser:
             c = en.index(t)
         self.taken.append((c, len(en)))
         return en[c]
+
+
+def burst_bias(rng, p_in_call=0.3, p_any=0.01):
+    """bias for RandomChooser — delivery timing as the adversary: what one recv returned is handled by the reader without
+    interruption (a burst), and the next recv returns only when every other thread is at rest, or — with probability
+    p_in_call per step — while some thread is inside an adapter call, or with a small probability at any step"""
+    def bias(en, sched):
+        reader = next((t for t in en if t.role == 'reader'), None)
+        if reader is None:
+            return None
+        others = [t for t in en if t is not reader]
+        if not (reader.pending and reader.pending[0] == 'recv') or not others:
+            return reader
+        in_call = any(t.state == 'parked' and t.pending and t.pending[0] == 'callE' for t in sched.threads)
+        if (in_call and rng.random() < p_in_call) or rng.random() < p_any:
+            return reader
+        return others[rng.randrange(len(others))]
+    return bias
 
 
 class BoundedChooser:
